@@ -55,6 +55,7 @@ def main():
         import hashlib
         suffix = "@" + hashlib.sha1(os.path.abspath(tmp).encode()).hexdigest()[:10]
         shutil.rmtree(os.path.join(VERIF, ".cache", "work", pid + suffix), ignore_errors=True)
+        shutil.rmtree(os.path.join(VERIF, ".cache", "coq" + suffix), ignore_errors=True)
 
 
 if __name__ == "__main__":
